@@ -501,6 +501,9 @@ func runRandomHist(prop string, seed int64, idx, steps int) core.Result {
 			st = &Step{Msg: &wire.Msg{Type: wire.Twstat, Fid: fid, Stat: wire.Stat{Name: fmt.Sprintf("w%d", i), Mode: 0o640, Nuid: 5, Ngid: 6, Nmuid: 7}}, Plan: plan}
 		}
 		st.Conn = ci
+		if prop == "C04" && r.Intn(5) == 0 {
+			st.LateFlush = true
+		}
 		before := h.Tabs[ci].StateKey(h.Alphabet)
 		rep := h.Do(st)
 		res.Evals++
